@@ -299,7 +299,50 @@ func c19PrefixKeys(c *ev.Ctx) {
 	})
 }
 
+// c19RepeatedRuns: a script that assigns no variable must give the same result, error
+// text and host-call trace on every run of one prepared evaluator - also when the runs
+// fail, hit the engine's limits, or return early.
+func c19RepeatedRuns(c *ev.Ctx) {
+	scripts := []struct {
+		script string
+		obj    map[string]interface{}
+	}{
+		{`function down(n) { v(n % 1000 == 0); if (n <= 0) { return 0; } return 1 + down(n - 1); } return down(Depth);`, map[string]interface{}{"Depth": 20000}},
+		{`function down(n) { if (n <= 0) { return v(0); } return 1 + down(n - 1); } return down(Depth);`, map[string]interface{}{"Depth": 9999}},
+		{`function down(n) { if (n <= 0) { panic("bottom"); } return 1 + down(n - 1); } return down(Depth);`, map[string]interface{}{"Depth": 3000}},
+		{`foreach i, e in [3, 1, 2] { foreach j, f in "ab" { v(i, e, j, f); if (e == 1) { return [i, j]; } } } return 0;`, nil},
+		{`function f(a) { foreach q in 1..5 { if (q == a) { return v(q) / Zero; } } return 0; } return f(3) + f(9);`, map[string]interface{}{"Zero": 0}},
+		{`switch (Kind) { case /^x/ { return v(1); } case "y", "z" { return v(2); } default { return v(sort(["b", "a", "C"], true)); } }`, map[string]interface{}{"Kind": "q"}},
+		{`return [v(sort(Tags)), v(reverse(Tags)), v(keys(Meta)), v(string(Meta)), Tags, Meta];`, map[string]interface{}{"Tags": []interface{}{"b", "a", "c"}, "Meta": map[string]interface{}{"z": 1, "a": 2, "m": 3}}},
+	}
+	for si, sc := range scripts {
+		for _, noOpt := range []bool{false, true} {
+			id := fmt.Sprintf("repeat/%d/%v", si, noOpt)
+			if !c.Want(id) {
+				continue
+			}
+			evr, err := eng.New(sc.script, eng.Options{NoOptimize: noOpt, Budget: 50000000})
+			if err != nil {
+				continue
+			}
+			first := ""
+			for run := 0; run < c.Pick(4, 12); run++ {
+				o := evr.Exec(sc.obj)
+				t := fmt.Sprintf("%s err=%q calls=%d trace=%s", o.Desc(), errText(o.Err), len(o.Trace), strings.Join(o.Trace, "|"))
+				c.Case(fmt.Sprint(id, run), true)
+				if run == 0 {
+					first = t
+				} else if t != first {
+					c.Violation(id, "repeated runs differ", map[string]interface{}{"summary": fmt.Sprintf("run %d of %q differs from run 1: %s", run+1, sc.script, diffLine(first, t)), "script": sc.script})
+					break
+				}
+			}
+		}
+	}
+}
+
 func c19Fixed(c *ev.Ctx) {
+	c19RepeatedRuns(c)
 	c19PrefixKeys(c)
 	// known finding: a format verb that prints an address
 	if c.Want("probe:sprintf-pointer-verb") {
